@@ -86,19 +86,23 @@ _TMP = None
 
 
 def cell_fields():
+    """(name, type[, bits]) of the data members of struct cell_item, in declaration order: comments are stripped, bit-fields (`unsigned x : 8`) keep their width"""
     txt = open(HDR).read()
-    m = re.search(r'struct\s+cell_item\s*\{(.*?)\n\s*float\s+score\s*\(', txt, re.S)
+    txt = re.sub(r'/\*.*?\*/', ' ', txt, flags=re.S)
+    txt = re.sub(r'//[^\n]*', ' ', txt)
+    m = re.search(r'struct\s+cell_item\s*\{(.*?)\n\s*(?:inline\s+)?float\s+score\s*\(', txt, re.S)
     if not m:
         raise RuntimeError('cannot find struct cell_item in parsing.h')
     out = []
     for ln in m.group(1).split(';'):
-        ln = ln.strip()
+        ln = ' '.join(ln.split())
         if not ln:
             continue
-        mm = re.match(r'(bool|float|unsigned|category_id|cell_item\s*\*)\s*(\w+)$', ln)
+        mm = re.match(r'(bool|float|unsigned int|unsigned|category_id|cell_item\s*\*)\s*(\w+)\s*(?::\s*(\d+))?$', ln)
         if not mm:
             raise RuntimeError(f'unrecognised field declaration in cell_item: {ln}')
-        out.append((mm.group(2), mm.group(1).replace(' ', '')))
+        ty = mm.group(1).replace(' ', '').replace('unsignedint', 'unsigned')
+        out.append((mm.group(2), ty) + ((int(mm.group(3)),) if mm.group(3) else ()))
     return out
 
 
@@ -108,7 +112,8 @@ class CellItem(ctypes.Structure):
 
 def _define_struct():
     ct = {'bool': ctypes.c_bool, 'float': ctypes.c_float, 'unsigned': ctypes.c_uint, 'category_id': ctypes.c_uint, 'cell_item*': ctypes.POINTER(CellItem)}
-    CellItem._fields_ = [(n, ct[t]) for n, t in cell_fields()]
+    # a bit-field of type bool is read as an unsigned bit-field (ctypes has no bool bit-fields; the storage unit is shared with its unsigned neighbours under the Itanium ABI)
+    CellItem._fields_ = [((f[0], ct[f[1]]) if len(f) == 2 else (f[0], ctypes.c_uint if f[1] in ('bool', 'unsigned', 'category_id') else ct[f[1]], f[2])) for f in cell_fields()]
 
 
 RULES_CB = ctypes.CFUNCTYPE(ctypes.c_int, ctypes.c_uint, ctypes.c_uint, ctypes.c_void_p)
@@ -160,7 +165,7 @@ def item_to_py(p):
     if not p:
         return None
     it = p.contents
-    d = {n: getattr(it, n) for n, t in CellItem._fields_ if n not in ('left', 'right')}
+    d = {n: getattr(it, n) for n, *_ in CellItem._fields_ if n not in ('left', 'right')}
     d['left'] = item_to_py(it.left)
     d['right'] = item_to_py(it.right)
     return d
@@ -213,7 +218,7 @@ def parse_raw(tag, dep, length, roots, binary, unary, cache=None, num_tags=None,
     if L.have_hook:
         def pop(p):
             it = p.contents
-            pops.append({n: getattr(it, n) for n, t in CellItem._fields_ if n not in ('left', 'right')})
+            pops.append({n: getattr(it, n) for n, *_ in CellItem._fields_ if n not in ('left', 'right')})
         pcb = POP_CB(pop)
         L.shim_set_pop_hook(pcb)
     rs = (ctypes.c_uint * max(1, len(roots)))(*roots)
@@ -287,7 +292,7 @@ class _CItem:
     def __init__(self, p):
         self._p = p
         it = p.contents
-        for n, t in CellItem._fields_:
+        for n, *_ in CellItem._fields_:
             if n not in ('left', 'right'):
                 setattr(self, n, getattr(it, n))
         self.left = _CItem(it.left) if it.left else None
@@ -368,7 +373,7 @@ def pyx_module():
         if L.have_hook and g.get('__pop_log__') is not None:
             def pop(p):
                 it = p.contents
-                g['__pop_log__'].append({n: getattr(it, n) for n, t in CellItem._fields_ if n not in ('left', 'right')})
+                g['__pop_log__'].append({n: getattr(it, n) for n, *_ in CellItem._fields_ if n not in ('left', 'right')})
             pcb = POP_CB(pop)
             L.shim_set_pop_hook(pcb)
         status = L.shim_parse(tag.ctypes.data_as(ctypes.c_void_p), dep.ctypes.data_as(ctypes.c_void_p), length & 0xFFFFFFFF, rs, len(rl), bcb, ucb, fcb,
